@@ -1,4 +1,4 @@
-From C03 Require Import Model ProofsBase ProofsShiftBase ProofsShift.
+From C03 Require Import Model ProofsBase ProofsDiv ProofsShiftBase ProofsShift.
 Local Open Scope Z_scope.
 Ltac Zify.zify_post_hook ::= Z.div_mod_to_equations.
 
@@ -26,6 +26,16 @@ Definition asr_no_ub_fwrapv_full : Prop :=
 Lemma asr_no_ub_fwrapv_refuted : ~ asr_no_ub_fwrapv_full.
 Proof.
   intros H. apply (H I64 (-1) (-1)); [cbn; tauto| | |]; vm_compute; try reflexivity; split; discriminate.
+Qed.
+
+(* the helpers as emitted (position of the `b == -1` line scraped from cbuiltins.lua) *)
+Lemma emitted_div_helpers_no_ub m t checked a b : m_wrapv m = true -> In t signed_types -> in_ity t a -> in_ity t b ->
+  (checked = true \/ b <> 0) ->
+  emitted_idiv_helper idiv_guard_first m t checked a b <> OUB /\ emitted_imod_helper imod_guard_first m t checked a b <> OUB.
+Proof.
+  intros. unfold emitted_idiv_helper, emitted_imod_helper.
+  change idiv_guard_first with true. change imod_guard_first with true. cbn [orb].
+  split; [apply h_idiv_no_ub|apply h_imod_no_ub]; auto.
 Qed.
 
 (* mixed-signedness comparisons and plain unary operators *)
@@ -67,8 +77,13 @@ Proof. vm_compute. split; reflexivity. Qed.
 (* index of int64 and of byte (uint8) in the primitive table *)
 Definition k_int64 : nat := 4.
 Definition k_uint8 : nat := 7.
-Definition t_zero_aligned : ty := TRec [TArr (TPrim k_int64) 0] false None.
+(* still false after 61ca8bb: a zero-size UNION forgets the alignment of its members *)
+Definition t_zero_aligned : ty := TUni [TArr (TPrim k_int64) 0].
 Definition t_witness : ty := TRec [t_zero_aligned; TPrim k_uint8] false None.
+(* ... and so does an `aligned` record without fields *)
+Definition t_witness2 : ty := TRec [TRec [] false (Some 16); TPrim k_uint8] false None.
+(* the repaired case: a zero-size record keeps the alignment of its fields *)
+Definition t_repaired : ty := TRec [TRec [TArr (TPrim k_int64) 0] false None; TPrim k_uint8] false None.
 
 (* the analyzer accepts every type tree over the primitive table with array lengths >= 0 *)
 Fixpoint accepted (t : ty) : bool :=
@@ -83,3 +98,7 @@ Fixpoint accepted (t : ty) : bool :=
 Definition layout_agrees_full : Prop := forall t, accepted t = true -> static_assert_holds t = true.
 Lemma layout_agrees_refuted : ~ layout_agrees_full.
 Proof. intros H. specialize (H t_witness eq_refl). vm_compute in H. discriminate. Qed.
+Lemma layout_agrees_refuted2 : accepted t_witness2 = true /\ static_assert_holds t_witness2 = false.
+Proof. vm_compute. split; reflexivity. Qed.
+Example repaired_case : static_assert_holds t_repaired = true /\ nl t_repaired = (8, 8).
+Proof. vm_compute. split; reflexivity. Qed.
